@@ -116,7 +116,7 @@ def _open_loop_job(k):
     s = dict(name="wing", nx=2 + k % 2, ny=3 + k % 3, sym=k % 2 == 0, side="L" if k % 2 == 0 else "F", shape=["swept", "all", "tapered", "dihedral"][k % 4], visc=True, fem="tube" if k % 3 else "wingbox", relief=k % 2 == 1, span=20.0, chord=3.0, jitter=0.01)
     if not s["sym"]:
         s["ny"] = 2 * s["ny"] - 1
-    m = B.ASModel([s], rng=rng, flow=dict(alpha=float(rng.uniform(1, 6)), v=float(rng.uniform(150, 240)), load_factor=float(rng.choice([1.0, 2.5]))))
+    m = B.ASModel([s], rng=rng, flow=dict(alpha=float(rng.uniform(3, 7)), v=float(rng.uniform(150, 240)), load_factor=float(rng.choice([1.0, 2.5]))))
     m.run()
     p = m.prob
     c = "AS_point_0.coupled."
@@ -201,7 +201,7 @@ def _solver_job(k):
     """Same outputs and totals whichever supported nonlinear / linear solver, initial guess or visiting order."""
     rng = np.random.default_rng(seed() * 173 + k)
     s = dict(name="wing", nx=2, ny=3 + k % 2, sym=True, side="L", shape=["swept", "all", "tapered"][k % 3], visc=True, fem="tube" if k % 2 == 0 else "wingbox", relief=k % 2 == 1, span=20.0, chord=3.0, geo={"twist_cp": [1.0, 2.0, 3.0]})
-    flow = dict(alpha=float(rng.uniform(1, 5)), v=float(rng.uniform(160, 230)))
+    flow = dict(alpha=float(rng.uniform(3, 7)), v=float(rng.uniform(160, 230)))
     ref = None
     bad = []
     inconclusive = []
